@@ -18,7 +18,7 @@ KANI_ASSUMPTIONS = [
     "Kani has no unwinding semantics: clauses about panics/unwinding are not covered",
 ]
 
-HOOK_COMMITS = ["0d1b28c", "7f73fb6"]
+HOOK_COMMITS = ["0d1b28c", "7f73fb6", "70da98a"]
 
 NOT_APPLICABLE = {
     "C04": "quantifies over safe *programs* and the oracle is rustc's accept/reject verdict (borrow/const checking); Verus and Kani both run after type checking with lifetimes erased, so no contract on a function of /repo can express it (DESIGN.md §4)",
@@ -67,8 +67,8 @@ PROPS = {
         level="other",
         technique="a logging base-allocator model asserts exactly-once release with fitting layout inside its deallocate; contracts on NonDummyChunk::new/deallocate/layout, reset, reset_to_start, manually_drop, scope exits; Verus lemma for the size arithmetic",
         claim="Verus (all inputs): the chunk size used for release lies between the requested and the granted size and keeps the alignment (align_size / fresh_chunk_fits). Kani (bounded K<=3): every grant is released exactly once with the same alignment and a size in [requested, granted] by reset (all but the last) and manually_drop from any current chunk; reset_to_start, reset_to, scope exits release nothing; an unallocated arena never calls the base allocator and a refused first chunk leaves nothing to release. CBMC's bounds checks cover 'never touches bytes outside the granted blocks' in every harness.",
-        note="LogAlloc is an assumed model of a conforming allocator (exact grants; over-granting is covered arithmetically by Verus and the bounded chain harness). BumpPool return path is not covered (C19).",
-        not_covered=["panics injected in user callbacks", "into_raw/from_raw round trip", "BumpPool return path"],
+        note="LogAlloc is an assumed model of a conforming allocator; exact grants in most obligations, over-granting (8/24/40 extra bytes) in the ob_overgrant obligations and arithmetically for every over-grant by Verus. BumpPool return path is not covered (C19).",
+        not_covered=["panics injected in user callbacks", "BumpPool return path"],
     ),
     "C07": dict(
         level="other",
@@ -81,7 +81,7 @@ PROPS = {
         level="other",
         technique="representation invariant wf (defined from the base allocator's grants, independently of the accessors) as postcondition of every mutating obligation; accessor/sum identities and typed-vs-type-erased equalities checked by Kani; size arithmetic lemmas by Verus",
         claim="wf (position in content range and MIN_ALIGN-aligned for the current chunk, size multiple of 16, header inside the grant, doubly linked list consistent, each later chunk strictly larger) is asserted after every operation contract of C01/C03/C05/C13/C14/C18; Stats/Chunk accessors equal the grant-derived geometry and sums, forward/backward iteration are reverses, AnyStats/AnyChunk equal the typed values for ZST, 8-byte and align-32 base allocators; claimed/unallocated report zeros. Verus proves the size facts for all inputs. One defect found by these obligations and fixed.",
-        note="Bounded: K<=3, literal chunk sizes; allocator instantiations listed in evidence.",
+        note="Bounded: K<=3, literal chunk sizes; allocator instantiations (ZST, 8-byte, align-32; exact and over-granting) and the MIN_ALIGN x direction matrix are listed in the evidence.",
         not_covered=["clauses about exits by unwinding / panics injected in callbacks (neither verifier has unwinding semantics)"],
     ),
     "C13": dict(
